@@ -1,5 +1,10 @@
 import PdtVerif.Lemmas.NgramTrie
 import PdtVerif.Lemmas.NgramWindow
+import PdtVerif.Lemmas.NgramLayout
+import PdtVerif.Lemmas.NgramFlatCheck
+import PdtVerif.Lemmas.NgramRemap
+import PdtVerif.Lemmas.NgramShape
+import PdtVerif.Lemmas.NgramLevel
 import PdtVerif.Lemmas.NgramArpa
 /-!
 # C06 — the n-gram lookup model computes Katz back-off on any table
@@ -73,6 +78,21 @@ theorem C06_chunk_indep (b : Buffers) (V : Nat) (sos : Int) (B : Nat) (hist : Li
     fullChunked b V sos B hist c₁ = fullChunked b V sos B hist c₂ := by
   rw [C06_chunk b V sos B hist hrows c₁ h₁, C06_chunk b V sos B hist hrows c₂ h₂]
 
+/-- **C06_chunk_layout.** The chunked evaluation does not depend on how the `(T, B)` history
+tensor is laid out in memory: for every view (any storage, storage offset, strides – a
+transposed batch-first tensor, a slice `longer[k:]`, every second row, a column block …)
+`hist.contiguous()` followed by `as_strided` at `storage_offset() + B*(t - Nm1)` yields, for
+every chunk size, the rows of the spec's contexts of the *logical* content `v.rows`.
+(The pinned code passed `B*(t - Nm1)` alone – see `C06_chunk_layout_counterexample`.) -/
+theorem C06_chunk_layout (b : Buffers) (V : Nat) (sos : Int) (v : View) (chunk : Nat)
+    (hchunk : 1 ≤ chunk) :
+    fullChunkedView b V sos v chunk =
+      (List.range (v.T + 1)).map (fun t =>
+        (List.range v.B).map (fun bb => rowOf b V sos (context b.N sos (col v.rows bb) t))) := by
+  rw [fullChunkedView_eq b V sos v chunk hchunk,
+    fullChunked_eq b V sos v.B v.rows v.rows_row_length chunk hchunk, View.rows_length]
+  rfl
+
 /-- **C06_full_eq_idx.** All positions at once (any chunk size) = one index at a time on the
 whole history (`SequentialLanguageModel.calc_full_log_probs`). -/
 theorem C06_full_eq_idx (b : Buffers) (V : Nat) (sos : Int) (B : Nat) (hist : List (List Int))
@@ -108,39 +128,220 @@ theorem C06_full_get_vec (b : Buffers) (hN : 1 ≤ b.N) (V : Nat) (sos : Int) (B
   unfold posRows
   rw [List.getElem?_map, List.getElem?_map, List.getElem?_range hbb]; rfl
 
-/-- `sos → V` (when the start symbol is outside the vocabulary), as applied to every key of
-the table by `_build_trie` and to the window by the lookup. -/
-def remapTable (V : Nat) (sos : Int) (items : List (List Int × Entry)) : List (List Int × Entry) :=
-  items.map (fun e => (e.1.map (remapTok V sos), e.2))
+/-- The pinned code's windows: `as_strided(…, B*(t - Nm1))` without `storage_offset()`. -/
+def fullChunkedViewPinned (b : Buffers) (V : Nat) (sos : Int) (v : View) (chunk : Nat) :
+    List (List (List LogP)) :=
+  let c := v.contiguous
+  let Nm1 := min c.T (b.N - 1)
+  (List.range Nm1).map (fun i => calcIdxScalar b V sos c.B (c.rows.take i) i) ++
+    chunkLoop b V sos c.B c.T Nm1 chunk c.storage (c.T + 1) Nm1
 
-/-
-TARGET (not proved): C06_flat —
-  for every table `dicts` accepted by `buildTrie V sos dicts = some b`,
-  `Represents (flatNav b (uOf V sos b.N)) (ofList (remapTable V sos (entries dicts))) (fun t => 0 ≤ t ∧ t < V + shiftOf V sos)`
-i.e. the flat buffers (children of node `i` are `[i + offsets[i], i + 1 + offsets[i+1])`,
-sorted by id, at most `S` of them) are a reverse trie of the closed, remapped table.
-This layer is carried by correspondence: the model's four buffers, `S`, `G`, `N` and both
-integer widths are compared element by element with the implementation's on every case,
-and the driver checks `rowOf = bo` on every generated case.
--/
+/-- A bigram model over `{0, 1}` whose unigram buffers are all that matters here. -/
+def exBuf : Buffers :=
+  { N := 2, G := 1, S := 1, offsets := #[3, 3, 2, 2], ids := #[0],
+    logps := #[.fin (-1), .fin (-2), .nan, .fin (-3)], logbs := #[.fin 0, .fin 0, .nan],
+    offBits := 8, idBits := 8 }
 
-/-- **C06_lookup_partial.** Given the flat-buffer layer (`hflat`, the statement of the
-unproved `C06_flat`), a row of the model is the Katz recursion on the table for the
-remapped window; with `C06_chunk` / `C06_idx_*` this is the whole property for every
-evaluation route. -/
+/-- `hist = longer[1:]` with `longer = [[1], [0]]`: one row `[0]`, storage offset 1. -/
+def exView : View := ⟨[1, 0], 1, 1, 1, 1, 1⟩
+
+/-- **Counterexample for the pinned code** (fixes/C06-chunked-storage-offset.diff): on the
+slice `longer[1:]` – contiguous for torch, storage offset 1 – the pinned windows show the
+row that was sliced away, the result differs from the evaluation on the logical content. -/
+theorem C06_chunk_layout_counterexample :
+    exView.isContig = true ∧ exView.rows = [[0]] ∧
+    fullChunkedViewPinned exBuf 2 0 exView 1 ≠ fullChunked exBuf 2 0 1 exView.rows 1 ∧
+    fullChunkedView exBuf 2 0 exView 1 = fullChunked exBuf 2 0 1 exView.rows 1 := by
+  decide +kernel
+
+/-! ## the flat-buffer layer -/
+
+/-- **C06_lookup_partial.** Given the flat-buffer layer as a hypothesis (`hflat`: the buffers
+navigate as a reverse trie of `tbl`, up to what a model of order `b.N` looks at), a row of
+the model is the Katz recursion on the table for the remapped window. (An earlier version
+asked for the unrestricted `Represents`, which real buffers cannot satisfy: the nodes of the
+highest order have no back-off slot.) -/
 theorem C06_lookup_partial (b : Buffers) (V : Nat) (sos : Int) (tbl : Table) (D : Int → Prop)
-    (hflat : Represents (flatNav b (uOf V sos b.N)) tbl D) (hN : b.N ≠ 1)
-    (win : List Int) (hwin : ∀ t ∈ win, D (remapTok V sos t)) (hV : ∀ w, w < V → D (Int.ofNat w)) :
+    (hflat : RepresentsN (flatNav b (uOf V sos b.N)) tbl D b.N)
+    (win : List Int) (hlen : win.length + 1 ≤ b.N)
+    (hwin : ∀ t ∈ win, D (remapTok V sos t)) (hV : ∀ w, w < V → D (Int.ofNat w)) :
     rowOf b V sos win =
       (List.range V).map (fun w => LogP.ofOption (bo tbl (Int.ofNat w) (win.map (remapTok V sos)))) := by
   unfold rowOf
-  rw [if_neg hN]
+  by_cases hN : b.N = 1
+  · rw [if_pos hN]
+    have hw0 : win = [] := List.eq_nil_of_length_eq_zero (by omega)
+    subst hw0
+    apply List.map_congr_left
+    intro w hw
+    have hD := hV w (List.mem_range.mp hw)
+    have hr : reach (flatNav b (uOf V sos b.N)) [Int.ofNat w].reverse = some w := by
+      simp [reach, walkSt, flatNav]
+    have := hflat.logp_some [Int.ofNat w] w (by simpa using hD) (by simp; omega) hr
+    simp only [flatNav] at this
+    rw [this]; simp [bo]
+  · rw [if_neg hN]
+    apply List.map_congr_left
+    intro w hw
+    exact descend_eq_boN _ tbl D b.N hflat _ (by simpa using hlen) _ (hV w (List.mem_range.mp hw))
+      (by intro t ht; simp at ht; obtain ⟨a, ha, rfl⟩ := ht; exact hwin a ha)
+
+/-- **C06_flat_checked.** Soundness of the executable layout check: buffers that pass
+`checkFlat` for a table navigate as a reverse trie of that table – every node the lookup can
+reach (following the `offsets`/`ids` scan of the lookup itself) carries the table's values,
+and every listed key is reachable. This is `C06_flat` with "the buffers built by
+`buildTrie`" replaced by "any buffers that pass the check"; the driver evaluates the check on
+the buffers built for every generated case. -/
+theorem C06_flat_checked (b : Buffers) (V : Nat) (sos : Int) (items : List (List Int × Entry))
+    (hchk : checkFlat b (uOf V sos b.N) (V + shiftOf V sos) items = true) :
+    RepresentsN (flatNav b (uOf V sos b.N)) (ofList items)
+      (fun t => 0 ≤ t ∧ t < ((V + shiftOf V sos : Nat) : Int)) b.N :=
+  checkFlat_sound b _ _ items hchk
+
+/-- **C06_lookup_checked.** End to end for checked buffers: if the buffers `b` pass the
+layout check for the (remapped) table of `dicts`, then every row the lookup model computes
+for a window of valid tokens is the Katz recursion **on the raw table with the raw window**
+– no hypothesis about the layout left, only the decidable check. -/
+theorem C06_lookup_checked (V : Nat) (sos : Int) (dicts : List (List Item)) (b : Buffers)
+    (hchk : checkBuilt V sos dicts b = true)
+    (hkeys : ∀ e ∈ tableOf dicts, ∀ t ∈ e.1, validTok V sos t)
+    (win : List Int) (hlen : win.length + 1 ≤ b.N) (hwin : ∀ t ∈ win, validTok V sos t) :
+    rowOf b V sos win =
+      (List.range V).map (fun w => LogP.ofOption (bo (ofList (tableOf dicts)) (Int.ofNat w) win)) := by
+  have H := C06_flat_checked b V sos _ hchk
+  rw [C06_lookup_partial b V sos _ _ H win hlen
+    (fun t ht => remapTok_dom V sos t (hwin t ht)) (fun w hw => ofNat_dom V sos w hw)]
   apply List.map_congr_left
   intro w hw
-  exact descend_eq_bo _ tbl D hflat _ _ (hV w (List.mem_range.mp hw))
-    (by intro t ht; simp at ht; obtain ⟨a, ha, rfl⟩ := ht; exact hwin a ha)
+  have hwV : w < V := List.mem_range.mp hw
+  have := bo_remap V sos (tableOf dicts) hkeys (Int.ofNat w)
+    (Or.inl ⟨Int.natCast_nonneg w, by show (w : Int) < V; exact_mod_cast hwV⟩) win hwin
+  rw [remapTok_ofNat V sos w hwV] at this
+  rw [this]
+
+/-- **C06_shape_roundtrip.** What `load_state_dict` of a freshly constructed
+`LookupLanguageModel(V, sos)` infers from the buffers that `_build_trie` produced: for every
+accepted table (any order, any sparsity; the unigram keys pairwise distinct, as the keys of a
+Python dict are) it recovers `max_ngram` = the order of the table, `max_ngram_nodes` = the
+number of n-grams of the highest order (for a unigram table: all `V + shift` unigram nodes)
+and `max_direct_descendants` = the value the constructor computed. Proof: the dummy cell in
+front of every level holds `len(level) + 1` and no later write (walk-back over childless
+parents, trailing fill, later levels) touches a non-zero cell; the loop of `load_state_dict`
+hops exactly along these cells. -/
+theorem C06_shape_roundtrip (V : Nat) (sos : Int) (dicts : List (List Item)) (b : Buffers)
+    (hb : buildTrie V sos dicts = some b) (hnd : keysNodup (dicts.headD [])) :
+    inferShape V sos b.offsets b.ids.size b.logps.size = some (b.N, b.G, b.S) ∧
+    b.N = dicts.length ∧
+    b.G = if dicts.length = 1 then V + shiftOf V sos else (dicts.getLastD []).length :=
+  inferShape_buildTrie V sos dicts b hb hnd
+
+/-- **C06_level_offsets** (the offsets invariant of one level of `_build_trie`, a part of
+`C06_flat`). For the literal `fillLevel` of the model – dummy write, one walk-back over
+childless parents per allocated n-gram, trailing fill: if the parent level occupies the
+cells `[lo, start)` (`start = f.allocated`), still all zero, the cell below it (if any) not,
+and the parents' indices `ps` that the `parents` dictionary returns for the sorted n-grams
+are non-decreasing and inside the parent level, then afterwards
+
+* `q + offsets[q] = start + 1 + #{k | ps[k] < q}` for every parent `q`: the children of `q`
+  are exactly the cells `[q + offsets[q], q+1 + offsets[q+1])`, childless parents in the
+  middle point to the next parent's first child, trailing ones one past the level;
+* the dummy cell holds `len(level) + 1` and no cell outside `[lo, start]` changed.
+
+Values are unbounded naturals: the integer width is not part of this statement (the two
+`uint8` defects of the pinned code lived exactly there). -/
+theorem C06_level_offsets (U : Nat) (isTop : Bool) (d : List Item) (f : Fill) (lo : Nat)
+    (hlo : lo ≤ f.allocated) (hd : d ≠ [])
+    (hmono : Mono ((sortLevel d).map
+      (fun e => (f.parents.lookup e.key.dropLast).getD 0 + f.lastStart)))
+    (hrange : ∀ p ∈ (sortLevel d).map
+      (fun e => (f.parents.lookup e.key.dropLast).getD 0 + f.lastStart), lo ≤ p ∧ p < f.allocated)
+    (hsz : f.allocated < f.offsets.size)
+    (hzero : ∀ q, lo ≤ q → q < f.allocated → f.offsets.getD q 0 = 0)
+    (hguard : lo = 0 ∨ f.offsets.getD (lo - 1) 0 ≠ 0) :
+    (∀ q, lo ≤ q → q < f.allocated →
+      (fillLevel U isTop d f).offsets.getD q 0 + q = f.allocated + 1 +
+        ((sortLevel d).map (fun e => (f.parents.lookup e.key.dropLast).getD 0 + f.lastStart)).countP
+          (fun x => decide (x < q))) ∧
+    (fillLevel U isTop d f).offsets.getD f.allocated 0 = d.length + 1 ∧
+    (∀ q, q < lo ∨ f.allocated < q →
+      (fillLevel U isTop d f).offsets.getD q 0 = f.offsets.getD q 0) := by
+  have hlen : ((sortLevel d).map
+      (fun e => (f.parents.lookup e.key.dropLast).getD 0 + f.lastStart)).length = d.length := by
+    rw [List.length_map, sortLevel_length]
+  have hne : (sortLevel d).map
+      (fun e => (f.parents.lookup e.key.dropLast).getD 0 + f.lastStart) ≠ [] := by
+    intro e
+    have := congrArg List.length e
+    rw [hlen] at this
+    exact hd (List.eq_nil_of_length_eq_zero this)
+  have h := level_offsets f.offsets lo f.allocated hlo _ hne hmono hrange hsz hzero hguard
+  rw [hlen] at h
+  rw [fillLevel_offsets]
+  exact ⟨h.1, h.2.1, h.2.2.1⟩
+
+/-
+TARGET (not proved): C06_flat —
+  for every table `dicts` (keys pairwise distinct within an order) with
+  `buildTrie V sos dicts = some b`:  `checkBuilt V sos dicts b = true`
+i.e. the buffers that `buildTrie` lays out (suffix closure, reversed-key merge sort, dummy
+nodes, walk-back / trailing offset fill) always pass the layout check: children of node `i`
+are `[i + offsets[i], i + 1 + offsets[i+1])`, at most `S` of them, with pairwise distinct
+ids, carrying the table's values. With `C06_lookup_checked` this would make the end-to-end
+statement unconditional. Today the check is *evaluated* instead: the driver runs `checkBuilt`
+on the buffers built for every generated case (and the buffers are compared with the
+implementation's element by element), so `C06_lookup_checked` applies to every case of every
+run, but not – by proof – to all tables.
+Proved towards it: `C06_level_offsets` (the offsets of one level, given that the parents'
+indices come in non-decreasing order) and `C06_shape_roundtrip` (the dummy cells / level
+structure). Remaining: (a) the reversed-key insertion sort yields a sorted level and the
+suffix closure + `parents` dictionary then give non-decreasing parent indices inside the
+parent level; (b) the frame of `ids`/`logps`/`logbs` (each node's cells written once);
+(c) the scan of `flatNav.child` over `S = max_direct_descendants` slots finds the unique
+child (sibling ids distinct, `S ≥` every range width); (d) the closed table differs from the
+raw one only by `(-inf, 0)` entries.
+-/
 
 /-! ## non-vacuity: the hypotheses are satisfiable on concrete, non-trivial inputs -/
+
+/-- A sparse trigram table with the start symbol outside the vocabulary (`V = 2`, `sos = -1`):
+the bigram `(1, 0)` and the unigram `1` are missing although `(-1, 1, 0)` is listed. -/
+def exDicts : List (List Item) :=
+  [[⟨[0], .fin (-1), .fin (-1/2)⟩, ⟨[-1], .fin (-8), .fin (-1/4)⟩],
+   [⟨[0, 1], .fin (-2), .fin (-1/8)⟩, ⟨[-1, 0], .negInf, .fin (-3)⟩],
+   [⟨[-1, 1, 0], .fin (-3), .fin 0⟩, ⟨[0, 0, 1], .fin (-1/4), .fin 0⟩]]
+
+-- `buildTrie` accepts it, the built buffers pass the layout check (hypothesis of
+-- `C06_lookup_checked`), the keys are valid and the unigram keys distinct
+example : (buildTrie 2 (-1) exDicts).map (checkBuilt 2 (-1) exDicts) = some true := by decide +kernel
+example : ∀ e ∈ tableOf exDicts, ∀ t ∈ e.1, validTok 2 (-1) t := by decide
+example : keysNodup (exDicts.headD []) := by unfold keysNodup; decide
+/-- The state before the bigram level of a model with three unigram nodes is allocated. -/
+def exFill : Fill :=
+  { offsets := Array.replicate 8 0, ids := Array.replicate 4 0, logps := Array.replicate 8 (.fin 0),
+    logbs := Array.replicate 8 (.fin 0), allocated := 3, lastStart := 0,
+    parents := [([0], 0), ([1], 1), ([2], 2)] }
+
+/-- Bigrams `(0,1)`, `(2,0)`, `(1,1)`: sorted by reversed key `(0,2) < (1,0) < (1,1)`; unigram
+`2` has no child. -/
+def exLevel : List Item := [⟨[0, 1], .fin (-1), .fin 0⟩, ⟨[2, 0], .fin (-2), .fin 0⟩, ⟨[1, 1], .fin (-3), .fin 0⟩]
+
+-- hypotheses of `C06_level_offsets` on it (parents' indices 0, 1, 1), and what it yields:
+-- children of 0: [4, 5), of 1: [5, 7), of the childless 2: [7, 7)
+example : (sortLevel exLevel).map
+    (fun e => (exFill.parents.lookup e.key.dropLast).getD 0 + exFill.lastStart) = [0, 1, 1] := by decide
+example : Mono ((sortLevel exLevel).map
+    (fun e => (exFill.parents.lookup e.key.dropLast).getD 0 + exFill.lastStart)) := by decide
+example : ∀ q, q < exFill.allocated → exFill.offsets.getD q 0 = 0 := by decide
+example : (fillLevel 4 true exLevel exFill).offsets.toList = [4, 4, 5, 4, 0, 0, 0, 0] := by decide
+
+-- what `load_state_dict` recovers for it: order 3, two trigrams
+example : (buildTrie 2 (-1) exDicts).map (fun b =>
+    decide (inferShape 2 (-1) b.offsets b.ids.size b.logps.size = some (3, 2, b.S))) = some true := by
+  decide +kernel
+-- and the end-to-end statement on it: P(0 | <s> 1) backs off twice (trigram listed: -3)
+example : (buildTrie 2 (-1) exDicts).map (fun b => rowOf b 2 (-1) [-1, 1]) =
+    some [LogP.fin (-3), LogP.negInf] := by decide +kernel
+
 
 /-- A sparse trigram table: the bigram `(2,0)` and the unigram `2` are not listed although
 `(2,2,0)` is; `(0,1)` has a back-off weight. -/
@@ -156,6 +357,12 @@ example : bo (ofList exItems) 0 [0, 1] = some (-11/8) := by decide +kernel
 example : descend (trieNav exItems) [0, 1].reverse 0 = LogP.fin (-11/8) := by decide +kernel
 -- an unlisted unigram is -∞ however long the context
 example : descend (trieNav exItems) [2, 2].reverse 2 = LogP.negInf := by decide +kernel
+
+-- views: a transposed batch-first tensor and a slice with storage offset show the same rows
+example : (⟨[1, 0, 1, 0, 2, 2], 0, 1, 3, 3, 2⟩ : View).rows = [[1, 0], [0, 2], [1, 2]] := by decide
+example : (⟨[9, 9, 1, 0, 0, 2, 1, 2], 2, 2, 1, 3, 2⟩ : View).rows = [[1, 0], [0, 2], [1, 2]] := by decide
+example : (⟨[1, 0, 1, 0, 2, 2], 0, 1, 3, 3, 2⟩ : View).isContig = false := by decide
+example : (⟨[9, 9, 1, 0, 0, 2, 1, 2], 2, 2, 1, 3, 2⟩ : View).isContig = true := by decide
 
 -- hypotheses of the window theorems on a concrete history (T = 3, B = 2) and index vector
 example : ∀ r ∈ ([[1, 0], [0, 2], [1, 2]] : List (List Int)), r.length = 2 := by decide
